@@ -70,6 +70,14 @@ var witnessCases = [][]string{
 	{"dv/1", "bin:fffe00/24/8", "O(display_bytes=n:1;line_bytes=n:1000000)"},
 	{"protobuf_widevine/0", "A(n:16;n:0)"},
 	{"from_protobuf_widevine/0", "bin:1000/16/8"},
+	{"_stdio_read/2", "null", "s:737464696e", "n:0"},
+	{"_stdio_read/2", "null", "s:737464696e", "n:16"},
+	{"_stdio_read/2", "null", "s:737464696e", "n:-1"},
+	{"_stdio_read/2", "null", "s:737464696e", "n:9223372036854775807"},
+	{"_stdio_read/2", "null", "s:737464696e", "f:390625p8"},
+	{"_stdio_read/2", "null", "s:7374646f7574", "n:-1"},
+	{"_stdio_info/1", "null", "s:737464696e"},
+	{"_stdio_write/1", "s:616263", "s:7374646f7574"},
 	{"intdiv/2", "null", "n:7", "n:0"},
 	{"intdiv/2", "null", "n:7", "n:-1"},
 	{"intdiv/2", "null", "n:-7", "n:2"},
